@@ -216,6 +216,50 @@ def rule_R5(text, args, fired, identity=False):
 def rule_R5i(text, args, fired):
     return rule_R5(text, args, fired, identity=True)
 
+def rule_R5all(text, args, fired):
+    """every `EXPR?` of the function body -> the explicit match of rule R5i (error types equal), each Err arm carrying the
+    same ghost text (args[0]).  Anchor-free: the `?` sites are found, not named, so reordering or re-spelling the
+    statements does not lose them.  `?` inside closures is left alone."""
+    ghost = args[0] if args else ''
+    n = 0
+    while True:
+        toks = _tok_code(text)
+        bo = _find_body_open(toks)
+        bc = match_close(toks, bo)
+        j = None
+        k = bo + 1
+        while k < bc:
+            t = toks[k]
+            if t.text == '|' and toks[k - 1].text in ('(', ',', '=') :
+                # a closure: skip its parameter list and its body expression / block
+                m = k + 1
+                while m < bc and toks[m].text != '|': m += 1
+                m += 1
+                if m < bc and toks[m].text == '{': k = match_close(toks, m) + 1
+                else:
+                    depth = 0
+                    while m < bc and not (depth == 0 and toks[m].text in (',', ')', ';')):
+                        if toks[m].text in OPEN: depth += 1
+                        elif toks[m].text in CLOSE: depth -= 1
+                        m += 1
+                    k = m
+                continue
+            if t.text == '?' and t.kind == 'punct':
+                j = k; break
+            k += 1
+        if j is None: break
+        i = _expr_start(toks, j)
+        s0, e0 = toks[i].start, toks[j].end
+        expr = text[s0:toks[j].start]
+        g = (' proof { %s } ' % ghost) if ghost else ' '
+        text = text[:s0] + 'match %s { Ok(v_ok) => v_ok, Err(v_err) => {%sreturn Err(v_err) } }' % (expr, g) + text[e0:]
+        n += 1
+        if n > 200: raise ExtractError('R5all: runaway')
+    if n == 0:
+        raise ExtractError('R5all: no `?` in the function')
+    fired.append('R5all:x%d' % n)
+    return text
+
 def rule_R15(text, args, fired):
     """let-introduction: `let P = CALL(..).rest;` -> `let NAME = CALL(..); let P = NAME.rest;`
     args = [anchor (start text of CALL), NAME].  CALL(..) is the first thing evaluated in the
@@ -599,7 +643,7 @@ def rule_R17lit(text, args, fired):
     return text
 
 AUTO_RULES = [('R13', rule_R13), ('R1', rule_R1), ('R2', rule_R2), ('R3', rule_R3), ('R6', rule_R6), ('R7', rule_R7), ('R12', rule_R12)]
-ARG_RULES = {'R20': rule_R20, 'R21': rule_R21, 'R4': rule_R4, 'R5': rule_R5, 'R5i': rule_R5i, 'R10': rule_R10, 'R15': rule_R15, 'A6': rule_A6, 'R8': rule_R8, 'R8s': rule_R8s, 'R8e': rule_R8e}
+ARG_RULES = {'R5all': rule_R5all, 'R20': rule_R20, 'R21': rule_R21, 'R4': rule_R4, 'R5': rule_R5, 'R5i': rule_R5i, 'R10': rule_R10, 'R15': rule_R15, 'A6': rule_A6, 'R8': rule_R8, 'R8s': rule_R8s, 'R8e': rule_R8e}
 
 # ---------------------------------------------------------------- function assembly
 
